@@ -6,7 +6,8 @@
 (*   enc  an encode call: r return value, mb max_data_bytes, q duration in 2.5 ms units, g = 1 iff   *)
 (*        the guard bytes behind data[mb-1] are intact, and the first bytes of the packet:           *)
 (*        single stream h; multistream off (sub-packet offsets as the library's own parser reports    *)
-(*        them - a hint that is re-derived here) and hs (first bytes at each offset);                *)
+(*        them - a hint that is re-derived here) and hs (first bytes at each offset), sbr (what each *)
+(*        stream encoder answers to OPUS_GET_BITRATE after the call);                               *)
 (*        res / md: peeked MDCT-layer reservoir and mode (used only when Strict)                     *)
 (*   end                                                                                            *)
 (* Strict = FALSE: the clauses of the property only.  Strict = TRUE: additionally the peeked         *)
@@ -16,6 +17,7 @@ EXTENDS Cvbr, Json, IOUtils, TLC
 CONSTANTS Strict,
           TolC,       \* percent: MDCT-only packets under constrained VBR (the reservoir is in charge)
           TolS,       \* percent: any packets under constrained VBR at FloorS bits/s per channel or more
+          TolM,       \* percent: multistream packets whose sub-packets are all MDCT-only, at FloorS b/s per channel or more
           FloorS,
           SmallPerStream   \* a buffer below SmallPerStream bytes per stream may be refused as too small
 VARIABLES l, cf, es, seen, trC, trS, prv
@@ -165,6 +167,14 @@ Enc1 ==
               mx |-> Max(prv.mx, ftAny)]
 
 (* Multistream encode call.                                                                         *)
+(* Constrained VBR, every sub-packet coded by the MDCT layer alone (class M): each stream's own      *)
+(* reservoir is in charge of that stream's share of the request, so the payload bits of all streams  *)
+(* together may exceed the REQUESTED bitrate over a window of >= 1 s by at most TolM percent plus     *)
+(* two buckets, a bucket being one frame's target of the whole request plus 16 bit per stream.       *)
+(* Payload = the frames' bytes (TOC, frame-count, padding and self-delimiting length bytes left out: *)
+(* the conservative reading, the same as for a single stream).  Asserted from FloorS b/s per channel, *)
+(* where the request covers the fixed per-channel cost of every layout driven (Surround!SumTheorem). *)
+MinOf(Sx) == CHOOSE c \in Sx : \A d \in Sx : c <= d
 EncM ==
   LET e  == Tr[l]
       S  == cf.S
@@ -175,6 +185,10 @@ EncM ==
       pay == IF ok THEN MsPayload(e, S) ELSE 0
       ftg == FrameTarget(IF explicit THEN es.br ELSE 0, e.q, 1)
       s2  == IF inS THEN TrStep(trS, e.q, 8 * pay, Allow(es.br, e.q, TolS), ftg) ELSE TrNew
+      inM == inS /\ ok /\ \A i \in 1..S : MdctOnly(SubParse(e, i, S))
+      cnt == IF inM THEN MinOf({SubParse(e, i, S).count : i \in 1..S}) ELSE 1
+      ftm == FrameTarget(IF explicit THEN es.br ELSE 0, e.q, cnt) + 16 * S
+      m2  == IF inM THEN TrStep(trC, e.q, 8 * pay, Allow(es.br, e.q, TolM), ftm) ELSE TrNew
       dtx == ok /\ MsIsDtx(e, S)
   IN
   /\ RetOK(e, S)
@@ -188,9 +202,14 @@ EncM ==
             /\ explicit => \E x \in MsCbrSizesQ(es.br, e.q, e.mb, S) : Abs(e.r - x) <= 1
             /\ es.br = OPUS_BITRATE_MAX => (e.r = e.mb \/ e.r >= 1276 * S)
        /\ inS => TrExcess(s2) <= 2 * (s2.mx + 16)
+       /\ inM => TrExcess(m2) <= 2 * m2.mx
+       \* model conformance: with VBR on, the per-stream split hands out no more than was requested
+       \* (Surround!SumTheorem + StoredTheorem, decided by G03 for every layout the create calls make)
+       /\ (Strict /\ es.vbr = 1 /\ explicit /\ es.br >= FloorS * cf.ch) =>
+            (Len(e.sbr) = S /\ SumSeq(e.sbr) <= es.br)
   /\ Strict => (e.gv = es.vbr /\ e.gc = es.cvbr)
   /\ seen' = IF ok /\ es.vbr = 0 /\ es.br # OPUS_BITRATE_MAX /\ ~dtx THEN seen \cup {<<e.q, e.mb, e.r>>} ELSE seen
-  /\ trS' = s2 /\ UNCHANGED <<trC, prv>>
+  /\ trS' = s2 /\ trC' = m2 /\ UNCHANGED prv
 
 TEnc == /\ l <= Len(Tr) /\ Tr[l].k = "enc"
         /\ IF cf.ms = 1 THEN EncM ELSE Enc1
